@@ -121,6 +121,7 @@ type Ghost struct {
 	BrEver     bool   `json:"brEver"`   // a BatchRelease has existed since the release started
 	JumpBack   bool   `json:"jumpBack"` // the user jumped to a lower step index during this release
 	LateChange bool   `json:"lateChange"` // the user changed the template while the rollout was already finalising / cancelling
+	DisSup     bool   `json:"disSup"`     // the Rollout was disabled / deleted while a newer revision (or a rollback) than the one being released was pending, or vice versa
 	ReadySteps []int  `json:"readySteps"`
 	ReadyRev   string `json:"readyRev"`
 }
@@ -641,6 +642,9 @@ func (w *World) LoseMemory() {
 func (w *World) afterAction(base string) {
 	br := &v1beta1.BatchRelease{}
 	ro := &v1beta1.Rollout{}
+	if strings.HasPrefix(base, "user.") && w.S.Load(w.NS, RolloutName, ro) && (ro.Spec.Disabled || !ro.DeletionTimestamp.IsZero()) && (w.Ghost.Rev >= 3 || w.Ghost.RolledBack) {
+		w.Ghost.DisSup = true
+	}
 	if w.S.Load(w.NS, RolloutName, br) {
 		w.Ghost.BrEver = true
 	}
